@@ -180,16 +180,29 @@ pub fn gen_bytes(s: &mut Src, n: usize) -> Vec<u8> {
     }
 }
 
+/// a length around a power of two between 1 KiB and 64 KiB, or arbitrary up to 100 000
+pub fn big_len(s: &mut Src) -> usize {
+    if s.bool() {
+        let k = 10 + s.below(7);
+        ((1usize << k) + s.below(5)).saturating_sub(2)
+    } else {
+        1000 + s.below(99_000)
+    }
+}
+
 impl Reg for Bytes {
     fn shape() -> Shape {
         Shape::BytesVar
     }
     fn gen(g: &mut Gen) -> Self {
-        let n = match g.s.weighted(&[2, 3, 2, 2]) {
+        let n = match g.s.weighted(&[20, 30, 20, 20, 1]) {
             0 => 0,
             1 => 1 + g.s.below(4),
             2 => 32,
-            _ => 5 + g.s.below(60),
+            3 => 5 + g.s.below(60),
+            // rarely: kilobytes (puzzle reveals, generators and VDF witnesses are
+            // this large in practice), sizes around powers of two
+            _ => big_len(&mut g.s),
         };
         Bytes::from(gen_bytes(&mut g.s, n))
     }
@@ -213,7 +226,20 @@ fn gen_clvm(s: &mut Src, depth: u32, out: &mut Vec<u8>) {
         gen_clvm(s, depth + 1, out);
         return;
     }
-    match s.weighted(&[3, 3, 2, 1]) {
+    match s.weighted(&[90, 90, 60, 30, 1]) {
+        4 => {
+            // rarely: a large atom (two- or three-byte length prefix)
+            let n = big_len(s);
+            if n < 0x2000 {
+                out.push(0xc0 | ((n >> 8) as u8));
+                out.push((n & 0xff) as u8);
+            } else {
+                out.push(0xe0 | ((n >> 16) as u8));
+                out.push(((n >> 8) & 0xff) as u8);
+                out.push((n & 0xff) as u8);
+            }
+            out.extend_from_slice(&gen_bytes(s, n));
+        }
         0 => out.push(0x80),                    // nil
         1 => out.push(s.u8() & 0x7f),           // one-byte atom
         2 => {
